@@ -32,7 +32,9 @@ class HashedValue(Generic[T]):
             if isinstance(self.value, HashedValue):
                 self.id_ = self.value.id_
                 self.value = self.value.value
-            elif hasattr(self.value, "_id_"):
+            elif hasattr(type(self.value), "_id_expression_map_"):
+                # a symbolic expression is identified by the id the library gave it (not any object that happens to have an
+                # attribute of that name: domain objects are identified by what they are).
                 self.id_ = self.value._id_
             else:
                 self.id_ = id(self.value)
